@@ -1243,7 +1243,9 @@ def load_corpus():
 NUL_OR_OVERFLOW_ESCAPE = re.compile(r"\\[4-7][0-7]{2}|\\000|\\0{1,2}(?![0-7])|\\x00|\\x0(?![0-9a-fA-F])|\\u0000|\\u0{1,3}(?![0-9a-fA-F])")
 
 # the same `+(x|y)` group twice around an optional group: fancy_regex / regex answer wrongly (`[[ b == +(ab|b)?(a)+(ab|b) ]]`)
-REPEATED_PLUS_GROUP = re.compile(r"\+\(([^()]*\|[^()]*)\)[?*]\([^()]*\)\+\(\1\)")
+# the same +(a|b) group twice around something that can match the empty string: an optional group ?( ) / *( ) or the
+# bare `*` wildcard (`+(a)*+(a)` is the shape of C08-9)
+REPEATED_PLUS_GROUP = re.compile(r"\+\(([^()]*\|[^()]*)\)(?:\*|[?*]\([^()]*\))\+\(\1\)")
 
 CLAUSE_PRIORITY = ["replace_ampersand_not_matched_text", "replace_dollar_read_by_regex_crate", "casemod_pattern_matches_substrings",
                    "casemod_multichar_case_mapping", "at_u_capitalizes_every_word",
